@@ -11,6 +11,10 @@ ITerm2Image:
       `_format_render(render(alpha, **style), h_align, width, v_align, height)` with the *reference* interpretation,
       against what `draw()` with the equivalent explicit parameters writes, and the same specifier given to
       `ImageIterator` and `UrwidImage`.
+  (e) history: every accepted sentence that leaves a padding dimension to the terminal (absent or zero width /
+      height) is evaluated again in the same process after the terminal was resized and after it was resized back -
+      through `_check_format_spec` for all of (a)-(c), through format() == explicit composition for (d) - and must
+      denote the padding size for the *current* terminal each time.
 Oracle: `ref_parse` below - a hand-written recursive-descent recognizer/interpreter of the documented grammar
 (docs/source/guide/formatting.rst + the Format Specification sections of the class docstrings); no regular
 expressions, nothing shared with the implementation.
@@ -42,6 +46,8 @@ DIGITS = "0123456789"
 HEX = "0123456789abcdefABCDEF"
 STYLES = ("block", "kitty", "iterm2")
 TERM = (12, 6)
+CELL = (2, 4)
+TERM_B = (9, 8)        # the terminal after a resize (history dimension of the relative padding sizes)
 _MASK = (1 << 63) - 1
 DEFAULT_ALPHA = 40 / 255
 STYLE_DEFAULTS = dict(
@@ -261,19 +267,35 @@ def _sig(spec, **kw):
     return kw
 
 
-def compare(col, L, style, cls, spec, ref, part, got=None):
-    """Judge one (style, spec): acceptance, error class, interpretation.  Returns the impl verdict."""
+def set_term(term):
+    """Resize the virtual terminal in place: same process, no reload, no reset."""
+    tty = world.W.tty
+    tty.cols, tty.rows = term
+    tty.xpx, tty.ypx = term[0] * CELL[0], term[1] * CELL[1]      # the cell size stays what it was
+
+
+def is_relative(fields):
+    """Does the sentence leave a padding dimension to the terminal (absent or zero width / height)?"""
+    return not fields[1] or not fields[3]
+
+
+def compare(col, L, style, cls, spec, ref, part, got=None, term=TERM, phase="first"):
+    """Judge one (style, spec) evaluated in a *term* terminal: acceptance, error class, interpretation.
+    A sentence with a terminal-relative dimension is then evaluated again, in the same process, after the
+    terminal was resized (TERM_B) and after it was resized back (TERM): each time it must denote the padding
+    size for the CURRENT terminal.  Returns the impl verdict of the first evaluation."""
     if got is None:
         col.count()
         got = impl_check(L, cls, spec)
     case = dict(kind="spec", style=style, spec=spec)
+    hist = {} if phase == "first" else dict(history=phase)
     if ref[0] == "ok":
         if got[0] != "ok":
-            col.violation(_sig(spec, clause="rejects-documented-sentence", style=style, exc=got[0]),
-                          f"{style}: {spec!r} is a sentence of the documented grammar but raised {got[0]}: {got[1]}",
-                          case)
+            col.violation(_sig(spec, clause="rejects-documented-sentence", style=style, exc=got[0], **hist),
+                          f"{style}: {spec!r} is a sentence of the documented grammar but raised {got[0]}: {got[1]}"
+                          + (f" ({phase})" if hist else ""), case)
             return got
-        want_f = resolve(ref[1], TERM)
+        want_f = resolve(ref[1], term)
         r = got[1]
         ok_shape = isinstance(r, tuple) and len(r) == 6 and isinstance(r[5], dict)
         if ok_shape:
@@ -283,13 +305,26 @@ def compare(col, L, style, cls, spec, ref, part, got=None):
             want_args = dict(STYLE_DEFAULTS[style], **ref[2])
             got_args = dict(STYLE_DEFAULTS[style], **r[5])
         if not ok_shape or got_f != want_n or not same_types:
-            col.violation(_sig(spec, clause="interpretation", style=style, field="base"),
-                          f"{style}: {spec!r} -> {r!r}, documented meaning {want_f!r} in a {TERM} terminal", case)
+            col.violation(_sig(spec, clause="interpretation", style=style, field="base", **hist),
+                          f"{style}: {spec!r} -> {r!r}, documented meaning {want_f!r} in a {term} terminal"
+                          + (f" (terminal sizes so far: {TERM} -> {TERM_B}" +
+                             (f" -> {TERM}" if phase == "resized-back" else "") + ", same process)" if hist else ""),
+                          case)
         elif got_args != want_args or any(type(got_args[k]) is not type(want_args[k]) for k in want_args):
-            col.violation(dict(clause="interpretation", style=style, field="style"),
+            col.violation(dict(clause="interpretation", style=style, field="style", **hist),
                           f"{style}: {spec!r} -> style args {r[5]!r}, documented meaning {ref[2]!r}", case)
-        col.inc("accepted")
-        col.add_distinct(hash((style, want_f, tuple(sorted(ref[2].items())))) & _MASK)
+        if phase == "first":
+            col.inc("accepted")
+            col.add_distinct(hash((style, want_f, tuple(sorted(ref[2].items())))) & _MASK)
+            if is_relative(ref[1]):
+                try:
+                    for t2, ph in ((TERM_B, "resized"), (TERM, "resized-back")):
+                        set_term(t2)
+                        col.count()
+                        col.inc("resize_evaluations")
+                        compare(col, L, style, cls, spec, ref, part, impl_check(L, cls, spec), t2, ph)
+                finally:
+                    set_term(TERM)
     else:
         if got[0] == "ok":
             col.violation(_sig(spec, clause="accepts-non-sentence", style=style, why=ref[0]),
@@ -367,7 +402,7 @@ def format_case(col, L, style, spec, deep=True):
     ref = ref_parse(spec, style)
     case = dict(kind="format", style=style, spec=spec)
     out = world.VStdout(None, isatty=False)
-    world.setup(IDENT[style], TERM[0], TERM[1], cell=(2, 4), stdout=out)
+    world.setup(IDENT[style], TERM[0], TERM[1], cell=CELL, stdout=out)
     img = style_image(L, style)
     st0, cs0 = inst_state(img), class_state(L)
     col.count()
@@ -404,6 +439,24 @@ def format_case(col, L, style, spec, deep=True):
                       f"{style}: format(image, {spec!r}) differs from _format_render(render(alpha={alpha!r}, "
                       f"**{ref[2]!r}), {h!r}, {w}, {v!r}, {ht})", case)
     col.inc("format_equalities")
+    if is_relative(ref[1]):
+        # history: the same specifier after a resize and after resizing back, same process, same image
+        try:
+            for t2, ph in ((TERM_B, "resized"), (TERM, "resized-back")):
+                set_term(t2)
+                col.count()
+                col.inc("format_resize_equalities")
+                h2, w2, v2, ht2, _ = resolve(ref[1], t2)
+                got2 = format(img, spec)
+                explicit2 = img._format_render(img._renderer(img._render_image, alpha, **ref[2]), h2, w2, v2, ht2)
+                if got2 != explicit2:
+                    col.violation(dict(clause="format-equals-explicit", style=style, history=ph),
+                                  f"{style}: terminal {TERM} -> {TERM_B}" + (f" -> {TERM}" if ph == "resized-back" else "")
+                                  + f": format(image, {spec!r}) differs from the explicit composition with padding "
+                                  f"{w2}x{ht2} for the current {t2} terminal"
+                                  + (" (it equals the one for the first terminal)" if got2 == explicit else ""), case)
+        finally:
+            set_term(TERM)
     if not deep:
         return
     # draw() with the equivalent explicit parameters (raw fields; draw() resolves them itself)
@@ -432,7 +485,7 @@ def other_entry_points(col, L, spec):
     style = "block"
     ref = ref_parse(spec, style)
     case = dict(kind="entry", spec=spec)
-    world.setup("kitty", TERM[0], TERM[1], cell=(2, 4))
+    world.setup("kitty", TERM[0], TERM[1], cell=CELL)
     from PIL import Image
 
     pil = Image.open(_GIF)
@@ -524,7 +577,7 @@ _GIF = None
 def _shard(items):
     L = world.load_urwid()
     col = _CTX.new_collector()
-    world.setup("kitty", TERM[0], TERM[1], cell=(2, 4))
+    world.setup("kitty", TERM[0], TERM[1], cell=CELL)
     for kind, arg in items:
         if kind == "prefix":
             prefix, maxlen = arg
@@ -542,7 +595,7 @@ def _shard(items):
             part, specs = arg
             check_strings(col, L, specs, part)
             col.inc("strings_" + part, len(specs))
-            world.setup("kitty", TERM[0], TERM[1], cell=(2, 4))
+            world.setup("kitty", TERM[0], TERM[1], cell=CELL)
         elif kind == "edits":
             specs = set()
             for base in arg:
@@ -560,7 +613,7 @@ def _shard(items):
                     col.violation(dict(clause="exception", style=style, exc=type(e).__name__, via="format"),
                                   f"{style}: {spec!r}: {type(e).__name__}: {e}", dict(kind="format", style=style, spec=spec))
             world.uninstall()
-            world.setup("kitty", TERM[0], TERM[1], cell=(2, 4))
+            world.setup("kitty", TERM[0], TERM[1], cell=CELL)
         elif kind == "entry":
             for spec in arg:
                 try:
@@ -570,7 +623,7 @@ def _shard(items):
                 except Exception as e:
                     col.violation(dict(clause="exception", exc=type(e).__name__, via="entry"),
                                   f"{spec!r}: {type(e).__name__}: {e}", dict(kind="entry", spec=spec))
-            world.setup("kitty", TERM[0], TERM[1], cell=(2, 4))
+            world.setup("kitty", TERM[0], TERM[1], cell=CELL)
     return col
 
 
@@ -634,12 +687,15 @@ def run(ctx):
                         alpha_family_alphabet=ALPHA_FAMILY, alpha_family_max_length=alpha_len,
                         menus=dict(h_align=H_MENU, width=W_MENU, vertical=V_MENU, alpha=A_MENU, style=S_MENU),
                         single_edit_bases=len(edit_base),
-                        rendered_specs_per_style=len(render_specs), styles=list(STYLES), terminal=list(TERM))
+                        rendered_specs_per_style=len(render_specs), styles=list(STYLES), terminal=list(TERM),
+                        terminal_history=[list(TERM), list(TERM_B), list(TERM)])
     ctx.rule = ("every string over the alphabet up to the length bound, every '#'-string of the alpha family, the "
                 "full menu product and all single-character edits, each x 3 styles, through the real "
                 "_check_format_spec, judged by the recursive-descent reference; accepted sentences of the product and "
                 "of length <= fmtlen additionally through format() == explicit composition == draw(), ImageIterator "
-                "and UrwidImage; distinct = distinct (style, documented interpretation) of accepted sentences")
+                "and UrwidImage; every accepted sentence with a terminal-relative dimension again after a resize and "
+                "after resizing back (same process); distinct = distinct (style, documented interpretation) of "
+                "accepted sentences")
     ctx.assumptions += ["the reference grammar is the one of docs/source/guide/formatting.rst and the class "
                         "docstrings; '+' must be followed by a non-empty style; a height of 0 is terminal-relative "
                         "(full terminal height), absent height is terminal height - 2",
@@ -653,7 +709,7 @@ def replay(ctx, case):
     L = world.load_urwid()
     kind = case.get("kind")
     if kind == "spec":
-        world.setup("kitty", TERM[0], TERM[1], cell=(2, 4))
+        world.setup("kitty", TERM[0], TERM[1], cell=CELL)
         spec = case["spec"]
         before = class_state(L)
         for style in ([case["style"]] if case.get("style") else STYLES):
